@@ -38,6 +38,8 @@ CORE_RATES = 'cherab/core/atomic/rates.pyx'
 INTERFACE = 'cherab/core/atomic/interface.pyx'
 OUT = os.path.join(LEAN, 'Cherab', 'Gen', 'OpenAdasPolicy.lean')
 SKIP = ('__init__', 'data_path')
+INIT_KNOWN_CALLS = ('np.log10', 'PhotonToJ.to', '_log10_knots', 'Interpolator1DArray', 'Interpolator2DArray', 'Interpolator3DArray',
+                    'Constant1D', 'Constant2D', 'IsoMapper2D', 'Arg2D', 'len', 'super', '__init__')
 
 
 # ---------------------------------------------------------------------------------------------- openadas.py (ast)
@@ -384,11 +386,17 @@ def read_rate_classes():
                 logs += re.findall(r'([\w.]*log10)\(', m.group(1))
             axis_np = bool(logs) and all(l == 'np.log10' for l in logs)
             chain, chain_ok = read_chain(ebody)
+            # what the constructor does to the tabulated values before they reach an interpolator: the argument text of
+            # every `np.log10(…)` (quotes and blanks normalised) and every call that is not one of the known ones
+            # (a floor / clip / where / helper applied to the table shows up in one of the two lists)
+            table_logs = [re.sub(r'\s+', '', a).replace('"', "'") for a in re.findall(r'np\.log10\((.*)\)\s*$', ibody or '', re.M)]
+            init_foreign = sorted({c for c in re.findall(r'([A-Za-z_][\w.]*)\s*\(', ibody or '')
+                                   if c not in INIT_KNOWN_CALLS and not re.fullmatch(r'\w+\.(min|max)', c)})
             is_null = name.startswith('Null') and re.fullmatch(r'\s*return 0\.0\s*', ebody or '') is not None
             classes.append(dict(name=name, base=base, initParams=[p for p, _ in _params(isig or '')],
                                 initSig=_params(isig) if isig is not None else None, evalParams=eparams, guarded=guarded,
                                 photon=photon, extrap=extrap, axisLogNumpy=axis_np, isNull=is_null,
-                                chain=chain, chainOk=chain_ok))
+                                chain=chain, chainOk=chain_ok, tableLogs=table_logs, initForeign=init_foreign))
     return classes, alias
 
 
@@ -468,6 +476,13 @@ def emit(accs, wl, classes, sigs):
             _l(c['extrap'], lambda p: '(%s, %s)' % (_s(p[0]), _s(p[1]))), _b(c['axisLogNumpy']), _b(c['isNull']),
             _l(c['chain'], lambda t: '(%s, %s, %s)' % (_s(t[0]), _s(t[1]), _b(t[2]))), _b(c['chainOk']))
         for c in classes))
+    o.append(']')
+    o.append('')
+    o.append('/-- per rate class with a constructor body: the argument of every `np.log10(…)` statement of `__init__` (blanks removed,')
+    o.append('double quotes written as single quotes) and the calls of `__init__` outside the known set (interpolators, np.log10,')
+    o.append('PhotonToJ.to, _log10_knots, len, min/max, super().__init__): a floor / clip / helper on the table appears here -/')
+    o.append('def tableLogs : List (String × List String × List String) := [')
+    o.append(',\n'.join('  (%s, %s, %s)' % (_s(c['name']), _l(c['tableLogs']), _l(c['initForeign'])) for c in classes if not c['isNull']))
     o.append(']')
     o.append('')
     o.append('end Cherab.Gen.OpenAdasPolicy')
